@@ -3,7 +3,7 @@
 import json, os
 S = '/verif/seeded'
 RAN = ("tools/verify_mutant.sh <id> in a scratch worktree of /repo under /tmp (patch applies; cargo check with and "
-       "without --features verif-hooks; demo_cmd.sh without the patch and with it; the baseline nextest suite with the patch) "
+       "without --features verif-hooks; demo_cmd.sh without the patch and with it; the baseline nextest suite with the patch, built with --cargo-profile release plus debug and overflow assertions) "
        "-> confirm.json; tools/try_mutant.sh patch.diff <props> (git -C /repo apply, rebuild egsim, quick batches at "
        "VERIF_SEED=20260923 with --no-evidence into /tmp, git -C /repo checkout -- ., rebuild)")
 T = {
